@@ -3,8 +3,8 @@
    weight with the data channel indices as the code does; the statements
    hold for modules whose weight is as long as their channel (Fuzzy, ART2-A);
    see known_findings.json for the others. *)
-From Coq Require Import List Bool Arith Reals.
-From ART Require Import Num NumR Vec Search Kernel BaseArt BaseArt_folds Fusion Fusion_proofs Fusion_skip.
+From Coq Require Import List Bool Arith Reals Permutation.
+From ART Require Import Num NumR Vec Search Kernel BaseArt BaseArt_folds Fusion Fusion_proofs Fusion_skip Fusion_perm.
 Import ListNotations.
 Open Scope nat_scope.
 
@@ -48,6 +48,24 @@ Theorem C10_activation_is_the_gamma_weighted_sum :
       t = wsumR (combine ts gammas).
 Proof. exact choice_is_weighted_sum. Qed.
 Print Assumptions C10_activation_is_the_gamma_weighted_sum.
+(* permuting the channels together with their gamma values, widths and vigilances: the fused activation depends only
+   on the multiset of (channel activation, gamma) pairs, the fused vigilance test only on the multiset of per-channel
+   verdicts (exact arithmetic) *)
+Theorem C10_fused_activation_is_permutation_invariant :
+  forall (mods mods' : list (Kernel RN)) (gammas gammas' : list (T RN)) (dims wdims dims' wdims' : list nat)
+         (Ws Ws' : list (list (T RN))) (x w x' w' : list (T RN)) (t t' : R),
+    k_choice (fusionK mods gammas dims wdims) Ws x w = Some t ->
+    k_choice (fusionK mods' gammas' dims' wdims') Ws' x' w' = Some t' ->
+    length gammas = length (combine mods (pos dims wdims)) -> length gammas' = length (combine mods' (pos dims' wdims')) ->
+    Permutation (combine (map (own Ws x w) (combine mods (pos dims wdims))) gammas)
+                (combine (map (own Ws' x' w') (combine mods' (pos dims' wdims'))) gammas') ->
+    t = t'.
+Proof. exact fused_activation_is_permutation_invariant. Qed.
+Theorem C10_all_channels_pass_is_permutation_invariant :
+  forall verdicts verdicts' : list bool,
+    Permutation verdicts verdicts' -> forallb (fun b => b) verdicts = forallb (fun b => b) verdicts'.
+Proof. exact all_channels_pass_is_permutation_invariant. Qed.
+Print Assumptions C10_fused_activation_is_permutation_invariant.
 Print Assumptions C10_categories_are_folds.
 
 (* one channel with gamma = 1 computes the bare module's activation (exact reals) *)
